@@ -142,6 +142,10 @@ func (t *Type) PossibleTypes() []Type {
 
 	res := []Type{}
 	for _, pt := range t.schema.GetPossibleTypes(t.def) {
+		if pt.Kind != ast.Object {
+			// possibleTypes are object types; implementing interfaces are not listed
+			continue
+		}
 		res = append(res, *WrapTypeFromDef(t.schema, pt))
 	}
 	return res
